@@ -65,9 +65,10 @@ func NewIndexKVStore(family kv.Family, cacheSize int, cacheTTL time.Duration) In
 		family:   family,
 		snapshot: family.GetSnapshot(),
 		mutable:  imap.NewIntMap[map[string]uint32](),
-		bucketCache: expirable.NewLRU(cacheSize, func(_ uint32, value *model.TrieBucket) {
-			value.Release()
-		}, cacheTTL),
+		// no release on eviction / purge: a lock-free reader may still be using a bucket it took from the cache
+		// (Release hands the bucket's tries back to the pool, the next bucket that is loaded overwrites them).
+		// An evicted bucket is left to the garbage collector.
+		bucketCache: expirable.NewLRU[uint32, *model.TrieBucket](cacheSize, nil, cacheTTL),
 	}
 }
 
